@@ -844,3 +844,29 @@ func (c *Ctx) containerDetection() {
 	usesDecode := len(staticCalls(f, decode)) == 1
 	c.check(ok && usesDecode, "T1-CONTAINER", c.fname(f), "first byte 0x80 selects the PFB decoder", f.Pos(), "head[0] == 0x80 → pfb.Decode", "container detection no longer tests the first byte against 0x80 before wrapping the input in the PFB decoder")
 }
+
+// t1CommandClauses returns the case clauses of the charstring command switch by opcode constant name.
+func (c *Ctx) t1CommandClauses() (map[string]*ast.CaseClause, *types.Info) {
+	info := c.info("type1")
+	decFD := c.funcDecl("type1", "decodeInfo", "decodeCharString")
+	clauses := map[string]*ast.CaseClause{}
+	ast.Inspect(decFD.Body, func(n ast.Node) bool {
+		s, ok := n.(*ast.SwitchStmt)
+		if !ok || s.Tag == nil {
+			return true
+		}
+		if t := info.TypeOf(s.Tag); t == nil || !strings.HasSuffix(t.String(), "type1.t1op") {
+			return true
+		}
+		for _, cc := range s.Body.List {
+			cl := cc.(*ast.CaseClause)
+			for _, e := range cl.List {
+				if id, ok := e.(*ast.Ident); ok {
+					clauses[id.Name] = cl
+				}
+			}
+		}
+		return false
+	})
+	return clauses, info
+}
